@@ -51,6 +51,13 @@ type GoBackNConn struct {
 
 	log btclog.Logger
 
+	// sendSem and recvSem let one Send and one Recv at a time work on a
+	// message that is split into several packets. Both may be called from
+	// several goroutines; the packets of two messages being sent (or
+	// reassembled) at the same time must not interleave.
+	sendSem chan struct{}
+	recvSem chan struct{}
+
 	// receivedACKSignal channel is used to signal that the queue size has
 	// been decreased.
 	receivedACKSignal chan struct{}
@@ -97,6 +104,8 @@ func newGoBackNConn(ctx context.Context, cfg *config,
 		cfg:               cfg,
 		recvDataChan:      make(chan *PacketData, cfg.n),
 		sendDataChan:      make(chan *PacketData),
+		sendSem:           make(chan struct{}, 1),
+		recvSem:           make(chan struct{}, 1),
 		receivedACKSignal: make(chan struct{}, 1),
 		resendSignal:      make(chan struct{}, 1),
 		remoteClosed:      make(chan struct{}),
@@ -193,7 +202,18 @@ func (g *GoBackNConn) Send(data []byte) error {
 		})
 	}
 
-	// Splitting is enabled. Split into packets no larger than maxChunkSize.
+	// Splitting is enabled. Only one message at a time is handed to the
+	// send loop packet by packet.
+	select {
+	case g.sendSem <- struct{}{}:
+		defer func() { <-g.sendSem }()
+	case <-ticker.C:
+		return errSendTimeout
+	case <-g.quit:
+		return fmt.Errorf("cannot send, gbn exited")
+	}
+
+	// Split into packets no larger than maxChunkSize.
 	var (
 		sentBytes = 0
 		maxChunk  = g.cfg.maxChunkSize
@@ -232,6 +252,16 @@ func (g *GoBackNConn) Recv() ([]byte, error) {
 
 	ticker := time.NewTimer(g.timeoutManager.GetRecvTimeout())
 	defer ticker.Stop()
+
+	// Only one caller at a time puts the packets of a message together.
+	select {
+	case g.recvSem <- struct{}{}:
+		defer func() { <-g.recvSem }()
+	case <-g.quit:
+		return nil, fmt.Errorf("cannot receive, gbn exited")
+	case <-ticker.C:
+		return nil, errRecvTimeout
+	}
 
 	for {
 		select {
